@@ -604,6 +604,7 @@ func c12World(rc *kernel.RunCtx) {
 	t := rc.T
 	k := kernel.New(t, kernel.M1, 1<<30)
 	kernel.Active = k
+	takeLateUse() // nothing from an earlier run
 	defer lockAware(k)()
 	kn := drawKnobs(t, rc.Run)
 	kn.OwnBuf = false
@@ -693,6 +694,7 @@ func c12World(rc *kernel.RunCtx) {
 		c.env.Hook = func(kind, key string) { k.Park(c.name, kind, key, nil) }
 		c.w = &core{fault: c.fault, sticky: true, park: park, limit: 512 << 10}
 		k.GoNamed(c.name, func() {
+			defer func() { c.w.done = true }()
 			k.Park(c.name, "start", "", nil)
 			if c.viaMW || c.viaHandler {
 				comp := c.env.buildTracked(c.specs[0])
@@ -855,6 +857,9 @@ func c12World(rc *kernel.RunCtx) {
 		}
 	}
 	k.Count("uses_checked", int64(totalUses))
+	if lu := takeLateUse(); lu != "" {
+		rc.Fail("C12/writer-used-after-its-render-returned", "%s", lu)
+	}
 	rc.Finish(k)
 	rc.Res.Nontriv = totalUses >= 2
 	rc.Res.Key = rc.Res.LogHash
